@@ -222,6 +222,56 @@ namespace verif
             }
             return t;
         }
+        // An HTTP-date (RFC 1123 form, with the CORRECT weekday - a wrong one is refused before any range
+        // check) for an instant next to the edge of what a nanosecond time_point can hold:
+        // max = 2262-04-11 23:47:16.85, min = 1677-09-21 00:12:43.15.  Seconds around the two limits,
+        // every hour of the two boundary days, and the days next to them.
+        inline std::string boundary_http_date(Choices& c)
+        {
+            static const int64_t MAXS = 9223372036LL, MINS = -9223372037LL;
+            static const int64_t MAXDAY = 9223286400LL /* 2262-04-11 00:00:00 */, MINDAY = -9223372800LL /* 1677-09-21 00:00:00 */;
+            int64_t t;
+            switch (c.pick(6))
+            {
+            case 0:
+                t = MAXS + int64_t(c.pick(7)) - 3;
+                break;
+            case 1:
+                t = MINS + int64_t(c.pick(7)) - 3;
+                break;
+            case 2:
+                t = MAXDAY + int64_t(c.pick(24)) * 3600 + int64_t(c.pick(4)) * 1199;
+                break;
+            case 3:
+                t = MINDAY + int64_t(c.pick(24)) * 3600 + int64_t(c.pick(4)) * 1199;
+                break;
+            case 4:
+                t = MAXDAY + (int64_t(c.pick(5)) - 2) * 86400 + int64_t(c.pick(86400));
+                break;
+            default:
+                t = MINDAY + (int64_t(c.pick(5)) - 2) * 86400 + int64_t(c.pick(86400));
+            }
+            int64_t days = t >= 0 ? t / 86400 : -((-t + 86399) / 86400);
+            int64_t sod  = t - days * 86400;
+            // civil date from days since 1970-01-01 (proleptic Gregorian)
+            int64_t z   = days + 719468;
+            int64_t era = (z >= 0 ? z : z - 146096) / 146097;
+            int64_t doe = z - era * 146097;
+            int64_t yoe = (doe - doe / 1460 + doe / 36524 - doe / 146096) / 365;
+            int64_t y   = yoe + era * 400;
+            int64_t doy = doe - (365 * yoe + yoe / 4 - yoe / 100);
+            int64_t mp  = (5 * doy + 2) / 153;
+            int64_t d   = doy - (153 * mp + 2) / 5 + 1;
+            int64_t m   = mp < 10 ? mp + 3 : mp - 9;
+            if (m <= 2)
+                ++y;
+            int64_t wd = ((days % 7) + 11) % 7; // 1970-01-01 was a Thursday; 0 = Sunday
+            static const char* WD[] = { "Sun", "Mon", "Tue", "Wed", "Thu", "Fri", "Sat" };
+            static const char* MO[] = { "Jan", "Feb", "Mar", "Apr", "May", "Jun", "Jul", "Aug", "Sep", "Oct", "Nov", "Dec" };
+            char buf[64];
+            snprintf(buf, sizeof buf, "%s, %02d %s %04d %02d:%02d:%02d GMT", WD[wd], int(d), MO[m - 1], int(y), int(sod / 3600), int(sod / 60 % 60), int(sod % 60));
+            return buf;
+        }
         inline std::string octets(Choices& c, size_t n)
         {
             // arbitrary octets with a bias towards the framing characters
